@@ -98,6 +98,9 @@ type config struct {
 	// HTTPServer: the server side is ws.HTTPUpgrader (request parsed by net/http, response written to the
 	// hijacked connection) instead of ws.Upgrader. No ProtocolCustom, no buffer sizes there.
 	HTTPServer bool
+	// Warm: the measured DebugDialer.Dial is preceded by this many dials through the SAME DebugDialer
+	// value (its own peers): a reused DebugDialer must behave like a new one.
+	Warm int
 	Offers     []offer
 	ExtMode    string   // none | selector | wsflate | custom | custom-error
 	ExtAccept  []string // names the selector/custom negotiator accepts
@@ -674,6 +677,16 @@ func TestDebugUpgraderFaithful(t *testing.T) {
 		if cbResp {
 			d.OnResponse = func(p []byte) { gotResp = append([]byte(nil), p...) }
 		}
+		if rapid.IntRange(0, 2).Draw(t, "reusedDebugUpgrader") == 0 {
+			// earlier upgrades through the same DebugUpgrader value (the wrapped Upgrader is replaced by a fresh
+			// one afterwards, because its negotiators carry per-handshake state by design)
+			for i := rapid.IntRange(1, 2).Draw(t, "earlierUpgrades"); i > 0; i-- {
+				d.Upgrade(tx.RW{Reader: tx.NewSrc(req, nil), Writer: tx.NewRec()})
+			}
+			d.Upgrader = c.upgrader()
+			gotReq, gotResp = nil, nil
+			hx.Class("debug-upgrader/reused-value")
+		}
 		dbgHS, dbgErr := d.Upgrade(tx.RW{Reader: tx.NewSrc(req, chunks), Writer: dbgRec})
 		hx.Eval()
 		hx.Class(fmt.Sprintf("debug-upgrader/ok=%v/cb=%v,%v/nethttp-parses=%v/writefault=%v", plainErr == nil, cbReq, cbResp, netHTTPParses(req), failAt >= 0 && plainRec.Failed))
@@ -756,7 +769,13 @@ func dialOnceW(c config, debug bool, respChunks []int, trailing []byte, pad int,
 		return rec.Bytes()
 	}
 	d := cc.dialer()
-	d.NetDial = func(ctx context.Context, network, addr string) (net.Conn, error) { return fakeConn{peer}, nil }
+	newPeer := func() *serverPeer {
+		p := &serverPeer{chunks: respChunks, trailing: trailing}
+		p.serve = peer.serve
+		return p
+	}
+	cur := peer
+	d.NetDial = func(ctx context.Context, network, addr string) (net.Conn, error) { return fakeConn{cur}, nil }
 	var out dialOutcome
 	if wrap {
 		d.WrapConn = func(c net.Conn) net.Conn {
@@ -775,6 +794,28 @@ func dialOnceW(c config, debug bool, respChunks []int, trailing []byte, pad int,
 		}
 		if onResp != nil {
 			dd.OnResponse = func(p []byte) { *onResp = append([]byte(nil), p...) }
+		}
+		for i := 0; i < c.Warm; i++ {
+			cur = newPeer()
+			if cn, b, _, err := dd.Dial(context.Background(), "ws://example.com"+c.Path); err == nil {
+				if b != nil {
+					io.ReadAll(b)
+					ws.PutReader(b)
+				} else {
+					io.ReadAll(cn)
+				}
+			}
+		}
+		cur = peer
+		if c.Warm > 0 {
+			out.wrapCalls, out.wrapWritten, out.wrapRead = 0, 0, 0
+			if onReq != nil {
+				*onReq = nil
+			}
+			if onResp != nil {
+				*onResp = nil
+			}
+			rand.Seed(c.Seed)
 		}
 		cn, b, hs, err := dd.Dial(context.Background(), "ws://example.com"+c.Path)
 		conn, out.hs, out.err = cn, hs, err
@@ -834,7 +875,12 @@ func TestDebugDialerFaithful(t *testing.T) {
 		if cbResp {
 			ps = &gotResp
 		}
-		dbg := dialOnceW(c, true, chunks, trailing, pad, pr, ps, wrap)
+		cw := c
+		if rapid.IntRange(0, 2).Draw(t, "reusedDebugDialer") == 0 {
+			cw.Warm = rapid.IntRange(1, 2).Draw(t, "earlierDials")
+			hx.Class("debug-dialer/reused-value")
+		}
+		dbg := dialOnceW(cw, true, chunks, trailing, pad, pr, ps, wrap)
 		hx.Eval()
 		if wrap {
 			hx.Class("debug-dialer/user-wrapconn")
